@@ -297,6 +297,15 @@ func init() {
 				}
 			}
 		}
+		// handles of a scope that was closed and dropped stay harmless for every OTHER gauge: updates
+		// through them never show up as a delivery of a gauge they were not made on
+		for k := 0; k < 6; k++ {
+			cs := map[string]interface{}{"stale_handles": true, "cached": k%2 == 1, "rounds": 40}
+			ctx.Case(cs, "", "updates-through-handles-of-dropped-scopes", "")
+			if f := c02Stale(k%2 == 1, 40); f != "" {
+				ctx.Fail("delivered_values_are_updates_and_fresh", f, cs, nil)
+			}
+		}
 		// a gauge is being registered in the same scope (the first-use call holds the scope's gauge lock
 		// inside the reporter's Allocate) while the first pass after the last update runs
 		for _, cached := range []bool{true} {
@@ -356,6 +365,71 @@ func c02Many(n int, cached bool) string {
 		if fmt.Sprint(g) != fmt.Sprint(want) {
 			return fmt.Sprintf("%d gauges in one scope: gauge %d was updated to %v before the first pass and %s before the second; delivered %v, expected %v",
 				n, i, 2000+i, map[bool]string{true: fmt.Sprint(3000 + i), false: "not again"}[i%2 == 1], g, want)
+		}
+	}
+	return ""
+}
+
+// c02Stale: per round a subscope with gauges is used, closed and dropped by a pass; new gauges are
+// registered elsewhere and updated; the old handles are updated with values no live gauge was ever given;
+// every delivery of a live gauge must be a value passed to Update on THAT gauge.
+func c02Stale(cached bool, rounds int) string {
+	log := &Log{}
+	opts := tally.ScopeOptions{OmitCardinalityMetrics: true}
+	if cached {
+		opts.CachedReporter = &RecCached{L: log, Caps: caps{true, true}}
+	} else {
+		opts.Reporter = &RecReporter{L: log, Caps: caps{true, true}}
+	}
+	root, closer := tally.VerifNewRootScope(opts, 0, 1)
+	defer closer.Close()
+	given := map[string]map[float64]bool{} // live gauge name -> values passed to Update
+	upd := func(name string, g tally.Gauge, v float64) {
+		if given[name] == nil {
+			given[name] = map[float64]bool{}
+		}
+		given[name][v] = true
+		g.Update(v)
+	}
+	var stale []tally.Gauge
+	for r := 0; r < rounds; r++ {
+		sub := root.Tagged(map[string]string{"round": fmt.Sprint(r)})
+		var mine []tally.Gauge
+		for i := 0; i < 3; i++ {
+			g := sub.Gauge(fmt.Sprintf("old%d", i))
+			g.Update(float64(-1000 - r))
+			mine = append(mine, g)
+		}
+		sub.(interface{ Close() error }).Close()
+		tally.VerifReportOnce(root) // reports and drops the closed subscope
+		stale = append(stale, mine...)
+		for i := 0; i < 3; i++ {
+			name := fmt.Sprintf("live%d_%d", r, i)
+			upd(name, root.Gauge(name), float64(10+i))
+		}
+		tally.VerifReportOnce(root)
+		for j, g := range stale {
+			g.Update(float64(900000 + r*1000 + j)) // through handles of dropped scopes
+		}
+		tally.VerifReportOnce(root)
+	}
+	alloc := map[int64]string{}
+	for _, e := range log.Snapshot() {
+		var name string
+		var v float64
+		switch e.K {
+		case 2:
+			name, v = e.S[0], fF(e.I[0])
+		case 12:
+			alloc[e.I[0]] = e.S[0]
+			continue
+		case 22:
+			name, v = alloc[e.I[0]], fF(e.I[1])
+		default:
+			continue
+		}
+		if strings.HasPrefix(name, "live") && !given[name][v] {
+			return fmt.Sprintf("gauge %q was delivered with %v, a value never passed to Update on it (it was only ever updated with %v; %v-like values were passed to Update through handles of subscopes that had been closed and dropped before)", name, v, given[name], 900000)
 		}
 	}
 	return ""
